@@ -142,12 +142,14 @@ def replay(v):
     args = job[len("compute("):].split(",")
     mode, sp = args[0], args[1]
     optical, radio = "optical=True" in job, "radio=True" in job
-    if mode == "Target":
-        return {"reproduced": False, "key": None, "detail": "replay implemented for diffuse runs"}
+    target = mode == "Target"
 
-    def mk(o, r, thrown=120):
+    def mk(o, r, thrown=None):
         cfg = NssConfig()
-        cfg.simulation.thrown_events = thrown
+        if target:
+            cfg.simulation.mode = "Target"
+            cfg.simulation.spectrum.log_nu_energy = 10.0
+        cfg.simulation.thrown_events = thrown or (2000 if target else 120)
         cfg.detector.optical.enable, cfg.detector.radio.enable = o, r
         if sp == "power":
             cfg.simulation.spectrum = Simulation.PowerSpectrum(index=2.0, lower_bound=8.0, upper_bound=9.0)
@@ -176,20 +178,27 @@ def replay(v):
     if "keywords" in ob and not (all((k in t.meta) == optical for k in OKEYS) and all((k in t.meta) == radio for k in RKEYS)):
         bad = f"header keywords {[k for k in t.meta if k in OKEYS + RKEYS]}"
     if "radio off" in ob or "optical off" in ob or "random sequence" in ob:
+        if not (optical and radio):
+            t = runit(mk(True, True))
         to, tr = runit(mk(True, False)), runit(mk(False, True))
-        for c in ("numPEs", "costhetaChEff"):
-            if not np.array_equal(np.asarray(t[c]), np.asarray(to[c])):
+        for c in ("numPEs", "costhetaChEff") + (("tmcintopt",) if target else ()):
+            if not np.array_equal(np.asarray(t[c]), np.asarray(to[c]), equal_nan=True):
                 bad = f"optical column {c} changes when radio is switched off"
+        for c in ("EFields",) + (("tmcintrad",) if target else ()):
+            if not np.array_equal(np.asarray(t[c]), np.asarray(tr[c]), equal_nan=True):
+                bad = f"radio column {c} changes when optical is switched off"
+        for c in MID + [b for b in BASE if b != "times"]:
+            for other, nm in ((to, "radio"), (tr, "optical")):
+                if c in t.colnames and c in other.colnames and not np.array_equal(np.asarray(t[c]), np.asarray(other[c]), equal_nan=True):
+                    bad = f"shared column {c} changes when {nm} is switched off"
         for k in OKEYS:
             if t.meta[k][0] != to.meta[k][0] and not (np.isnan(t.meta[k][0]) and np.isnan(to.meta[k][0])):
                 bad = f"optical keyword {k} changes when radio is switched off: {t.meta[k][0]} vs {to.meta[k][0]}"
-        if not np.array_equal(np.asarray(t["EFields"]), np.asarray(tr["EFields"])):
-            bad = "radio column EFields changes when optical is switched off"
         for k in RKEYS:
             if t.meta[k][0] != tr.meta[k][0] and not (np.isnan(t.meta[k][0]) and np.isnan(tr.meta[k][0])):
-                bad = f"radio keyword {k} changes when optical is switched off"
+                bad = f"radio keyword {k} changes when optical is switched off: {t.meta[k][0]} vs {tr.meta[k][0]}"
     if bad:
-        return {"reproduced": True, "key": "full run: " + bad[:70], "detail": bad + f" ({job})"}
+        return {"reproduced": True, "key": "full run: " + bad.split(":")[0][:70], "detail": bad + f" ({job})"}
     return {"reproduced": False, "key": None, "detail": "real run satisfies the structural predicate"}
 
 
